@@ -33,6 +33,9 @@ func init() {
 			{ID: "R14l", Floor: 1, Doc: "no state update is made on a by-value copy: a library function that copies *p (its receiver or a pointer parameter) into a local, assigns fields of the copy and drops it has updated nothing (a position advanced on a copy of the reader)", Run: ruleR14l},
 			{ID: "R14m", Floor: 1, Doc: "Next and SkipNext hand Options.ZeroLengthSectionAsEOF to the framing routines as it is (not combined with the version or anything else): both end a null-padded payload with io.EOF, CARv1 or CARv2", Run: ruleR14m},
 			{ID: "R14n", Floor: 3, Doc: "Next and SkipNext are bound by the same section-size limit (= R09c)", Run: ruleR09c},
+			{ID: "R14o", Floor: 3, Doc: "the block reader works over pipes and sockets as over files: no buffer filled by a single Read (= R02q)", Run: ruleR02q},
+			{ID: "R14p", Floor: 9, Doc: "Next accepts every block SkipNext steps over: the hash check recomputes the digest at the CID's own length (= R02a, R02h)", Run: func(c *Ctx, r *Report) { ruleR02a(c, r); ruleR02h(c, r) }},
+			{ID: "R14q", Floor: 2, Doc: "the offsets index generation records are payload-relative like the ones BlockReader reports (= R03b)", Run: ruleR03b},
 		},
 	})
 }
